@@ -758,7 +758,9 @@ NewIds(e) ==
         \cup (IF HasF(e, "objs") THEN SeqIds(e.objs, 3, 4) ELSE {})
         \cup ToSet(e.led.new) )
 OpKeys(e) ==
-    (IF HasF(e, "k") THEN {e.k} ELSE {}) \cup (IF HasF(e, "items") THEN {e.items[i][1] : i \in DOMAIN e.items} ELSE {})
+    (IF HasF(e, "k") /\ e.op # "Probe" THEN {e.k} ELSE {})
+    \cup (IF HasF(e, "items") THEN {e.items[i][1] : i \in DOMAIN e.items} ELSE {})
+    \cup (IF HasF(e, "objs") THEN {e.objs[i][1] : i \in DOMAIN e.objs} ELSE {})
 KeyAddingOps == {"Insert", "Entry", "RawEntry", "SInsert", "SReplace", "SGetOrInsert", "SGetOrInsertOwned", "SGetOrInsertWith"}
 H_Fault(e) ==
     LET s == e.s
@@ -790,6 +792,7 @@ H_Fault(e) ==
                                           (IF e.op \in {"Entry", "RawEntry"} THEN {e.k} ELSE {})
                  [] kind = 0 -> IF e.op \in KeyAddingOps
                                 THEN lost \subseteq {e.fault.victim}    \* the element being relocated when its hash panicked
+                                ELSE IF e.op = "Probe" THEN lost \subseteq {e.fault.victim}
                                 ELSE IF e.op \in {"Get", "Remove", "RemoveEntry", "SRemove", "STake", "SContains", "SGet", "Iter", "Retain", "DrainFilter", "Clear", "Drain"}
                                 THEN lost \subseteq removedByVerdict
                                 ELSE lost \subseteq Keys(E)
